@@ -11,12 +11,15 @@ pub fn enum_is_inner(ast: &DeriveInput) -> syn::Result<TokenStream> {
     let (impl_generics, ty_generics, where_clause) = ast.generics.split_for_impl();
 
     let enum_name = &ast.ident;
-    let variants: Vec<_> = variants
-        .iter()
+    let mut enabled_variants = Vec::new();
+    for variant in variants {
+        if variant.get_variant_properties()?.disabled.is_none() {
+            enabled_variants.push(variant);
+        }
+    }
+    let variants: Vec<_> = enabled_variants
+        .into_iter()
         .filter_map(|variant| {
-            if variant.get_variant_properties().ok()?.disabled.is_some() {
-                return None;
-            }
 
             let variant_name = &variant.ident;
             let fn_name = format_ident!("is_{}", snakify(&variant_name.to_string()));
